@@ -53,6 +53,7 @@ const (
 	faultNone   = 0
 	faultBefore = 1 // the call is not made; an error is returned
 	faultAfter  = 2 // the real call runs, then an error is returned
+	faultPanic  = 3 // the call panics (a downstream module that aborts instead of returning an error)
 )
 
 type CallRec struct {
@@ -72,6 +73,9 @@ func (p *Plan) hit(site string, req any) int {
 	idx := len(p.Calls) - 1
 	if m := p.Fail[idx]; m != 0 {
 		p.Fired = append(p.Fired, idx)
+		if m == faultPanic && site != "bank.GetBalance" {
+			panic("injected downstream panic at " + site)
+		}
 		return m
 	}
 	return faultNone
